@@ -35,10 +35,19 @@ def run(ctx):
                                stdout=subprocess.PIPE, stderr=subprocess.PIPE, text=True, timeout=1500)
         except subprocess.TimeoutExpired:
             raise vlib.MachineryError("wasm harness timed out under node")
-        if r.returncode != 0 or not r.stdout.strip():
+        wedge = None
+        if r.returncode != 0 and "all goroutines are asleep - deadlock" in r.stderr:
+            # the Go runtime found every goroutine blocked: with a wScreen frame among them the screen has wedged
+            frames = sorted({ln.strip().split("(0x")[0].split("/")[-1] for ln in r.stderr.splitlines()
+                             if "gdamore/tcell/v2.(*wScreen)" in ln or "gdamore/tcell/v2.(*baseScreen)" in ln})
+            if frames:
+                wedge = dict(ev="Lifecycle", seq=["(outside the lifecycle phase)"], wedged="deadlock: " + ", ".join(frames[:4]), done=0)
+        if wedge is None and (r.returncode != 0 or not r.stdout.strip()):
             vlib.log(r.stderr[-3000:])
             raise vlib.MachineryError("wasm harness failed under node (rc=%d)" % r.returncode)
         lines = [ln for ln in r.stdout.splitlines() if ln.startswith("{")]
+        if wedge is not None:
+            lines.append(json.dumps(wedge))
         nlines = len(lines)
         with open(tf, "w") as f:
             for e in events:
